@@ -416,6 +416,7 @@ func runC04(c *Ctx) {
 		}
 		f.Close()
 	}
+	c.overlapMergeProbe("C04")
 }
 
 func partDiff(a, b []string) []string {
